@@ -553,3 +553,12 @@ Proof.
 Qed.
 Lemma mrd_oob {X} (a : marr X) i : length a <= i -> mrd a i = OutOfBounds.
 Proof. intro H. unfold mrd. apply nth_error_None in H. rewrite H. reflexivity. Qed.
+
+(* an equation "= Done x" rules out every error outcome *)
+Lemma done_safe {X} (r : mres X) (x : X) : r = Done x -> r <> OutOfBounds /\ r <> UninitRead /\ r <> OutOfFuel.
+Proof. intros ->. repeat split; discriminate. Qed.
+
+Theorem ll_sort_rows_safe {S : Scalar} (A : crs S) :
+  let r := ll_sort_rows (nrows A) (fptr (flat_of A)) (filled (fcol (flat_of A)), filled (fval (flat_of A))) in
+  r <> OutOfBounds /\ r <> UninitRead /\ r <> OutOfFuel.
+Proof. cbv zeta. eapply done_safe. exact (proj1 (ll_sort_rows_ok A)). Qed.
